@@ -19,7 +19,7 @@ RULE = ("valid E5 byte strings from the reference encoder with a seeded choice o
         "choices enumerated for every format code), random nestings, finite float bit patterns and reference-accepted "
         "byte mutants; fed to ANYVALUE, Dynamic(types), the typed classes and every catalogued data item for each of "
         "its allowed formats and to Dynamic([]) (all types), each also decoded into an object that already holds another value; distinct by (target, input bytes); non-trivial when it has a non-minimal length field, "
-        "a nesting or >1 element; plus: the same bytes decoded into an object whose value was set with an explicitly typed variable (own element type / length limit); every fourth ANYVALUE input also through the item API reader")
+        "a nesting or >1 element; plus: the same bytes decoded into an object whose value was set with an explicitly typed variable (own element type / length limit); every fourth ANYVALUE input also through the item API reader; items of 13-1000 elements in every leaf format (around every power of two; random, all zero, zero at every other position)")
 ASSUMPTIONS = ["lib/e5ref.py strict decoder defines which byte strings are valid E5 items and what they denote",
                "format codes the library does not claim to support (2-byte characters 0o22) and non-finite floats are excluded",
                "for A items bytes >= 0x80 only byte-level round-trip is demanded"]
@@ -31,7 +31,7 @@ TECHNIQUE = "runtime differential oracle (reference decoder) over foreign valid 
 SHARDS = {"quick": 8, "thorough": 16}
 TIMEOUT = {"quick": 240, "thorough": 3000}
 FLOORS = {"oracle.decode_into_used_object": 1000, "oracle.anyvalue": 2000, "oracle.typed": 1000, "oracle.dataitem": 300, "nonminimal.inputs": 1000,
-          "enumerated.code_x_lenbytes": 14 * 3, "mutants.accepted_by_reference": 50}
+          "enumerated.code_x_lenbytes": 14 * 3, "mutants.accepted_by_reference": 50, "long_items": 200}
 
 ANY_FMTS = [f for f in gen.LEAF_FMTS if f != "J"]
 
@@ -223,6 +223,32 @@ def _enumerate_code_lenbytes(ctx):
     ctx.exhaustive["format_code_x_length_byte_count"] = True
 
 
+def _long_items(ctx):
+    """Items with many elements (13 .. 1000, around every power of two): an implementation may read long items by another
+    route than short ones. Values random, all zero, and zero at every other position."""
+    rng = ctx.rng
+    counts = [13, 16, 17, 31, 32, 33, 40, 63, 64, 65, 100, 127, 128, 129, 255, 256, 257, 1000]
+    for fmt in gen.LEAF_FMTS:
+        for n in counts + [rng.randint(13, 600) for _ in range(2 if ctx.quick else 30)]:
+            trees = [gen.leaf(rng, fmt, n=n)]
+            if fmt not in ("A", "J", "B", "BOOLEAN"):
+                vals = trees[0][1]
+                trees.append((fmt, [0] * n))
+                trees.append((fmt, [0 if i % 2 == 0 else v for i, v in enumerate(vals)]))
+                trees.append((fmt, [v if i % 2 == 0 else 0 for i, v in enumerate(vals)]))
+            for tree in trees:
+                data = e5ref.encode(tree, _random_lenbytes(rng, 0.3))
+                _judge(ctx, fmt, sv.VCLS[fmt], data, tree, f"typed:long:{fmt}")
+                ctx.count("oracle.typed")
+                if fmt != "J":
+                    _judge(ctx, "ANYVALUE", sv.ANYVALUE, data, tree, f"anyvalue:long:{fmt}")
+                    ctx.count("oracle.anyvalue")
+                    outer = ("L", [("U1", [1]), tree, ("A", b"x")])
+                    _judge(ctx, "ANYVALUE", sv.ANYVALUE, e5ref.encode(outer), outer, f"anyvalue:nested-long:{fmt}")
+                    _judge_item_api(ctx, data, tree)
+                ctx.count("long_items")
+
+
 def _float_patterns(ctx):
     V = sv.V
     rng = ctx.rng
@@ -343,6 +369,8 @@ def run(ctx):
         _enumerate_code_lenbytes(ctx)
     if ctx.shard == 1 % ctx.nshards:
         _float_patterns(ctx)
+    if ctx.shard == 2 % ctx.nshards:
+        _long_items(ctx)
     _dataitems(ctx)
     n = 10000 if ctx.quick else 600000
     _mutants(ctx, n // 2)
